@@ -84,6 +84,14 @@ def _subs(tier):
             # case split: burst or not for the 2nd/3rd request, first order fits or not
             out += [s for s in split_by_order(sub, [('d1', '0'), ('d2', '0'), (f'need{assign[0]}', 'cap')])
                     if not s['name'].split('#')[1][0] == 'l' and not s['name'].split('#')[1][1] == 'l']
+    # targeted class: a burst of three orders behind a maintainer that the first order fills completely; the two others
+    # (different targets / tags) both become startable in the same scan when it finishes
+    params = [['cap', 0, T]]
+    for p in (0, 2, 1):
+        params += [[f'dur{p}', 0, T], [f'need{p}', 0, T], [f'cost{p}', 1, T]]
+    params += [['d1', 0, T], ['d2', 0, T]]
+    out.append({'name': 'req-021-burst-behind-a-full-maintainer', 'shape': {'assign': [0, 2, 1], 'nested': False}, 'params': params,
+                'pre': ['d1 == 0', 'd2 == 0', 'need0 == cap', 'need0 >= 1', 'dur0 >= 1', 'need2 + need1 <= cap']})
     return out
 
 
